@@ -267,12 +267,22 @@ func c12Check(c C12Case, rec *Recorder) *Disc {
 			passed := roomyConfig(*s.Cfg)
 			handedOver := cfgJSON(passed)
 			var m *cors.Middleware
+			var earlySrv *Server
 			if s.Op == "reconfigure" && mw != nil {
 				if err := mw.m.Reconfigure(passed); err != nil {
 					rec.Class("rejected-config")
 					continue
 				}
 				m = mw.m
+			} else if i%3 == 2 {
+				// a zero-value middleware whose handler is wrapped BEFORE the configuration arrives
+				m = new(cors.Middleware)
+				earlySrv = NewServer(m.Wrap)
+				if err := m.Reconfigure(passed); err != nil {
+					rec.Class("rejected-config")
+					continue
+				}
+				rec.Class("created-by-wrap-then-reconfigure")
 			} else {
 				var err error
 				// NewMiddleware takes the Config by value but the slices inside are shared with the caller
@@ -288,6 +298,8 @@ func c12Check(c C12Case, rec *Recorder) *Disc {
 			n := &c12MW{m: m, cfg: *s.Cfg, suite: c12Suite(*s.Cfg)}
 			if mw != nil && s.Op == "reconfigure" {
 				n.passed, n.fetched, n.srv = mw.passed, mw.fetched, mw.srv
+			} else if earlySrv != nil {
+				n.srv = earlySrv
 			} else {
 				n.srv = NewServer(m.Wrap)
 			}
@@ -395,7 +407,7 @@ func c12Check(c C12Case, rec *Recorder) *Disc {
 
 func TestC12(t *testing.T) {
 	Prop[C12Case]{ID: "C12", Gen: c12Gen, Check: c12Check,
-		Rule: "generator: history of 3-15 steps over up to 3 live middlewares: create / reconfigure from a Config whose slices have spare capacity; edit the previously passed Config IN PLACE (same backing arrays) and Reconfigure with it, after which the middleware must behave like a fresh one built from the edited configuration; scribble over every slice (and spare capacity) of every Config ever passed in; fetch Config() and scribble over every result ever fetched; " +
+		Rule: "generator: history of 3-15 steps over up to 3 live middlewares: create (NewMiddleware, or at every third step a zero value whose handler is wrapped first and configured afterwards) / reconfigure from a Config whose slices have spare capacity; edit the previously passed Config IN PLACE (same backing arrays) and Reconfigure with it, after which the middleware must behave like a fresh one built from the edited configuration; scribble over every slice (and spare capacity) of every Config ever passed in; fetch Config() and scribble over every result ever fetched; " +
 			"evil requests (any kind) through a wrapped handler that overwrites in place, re-slices to capacity and appends to every value slice reachable from r.Header and w.Header(), deletes/sets keys and keeps the slices; scribble over the retained slices later; benign request bursts. " +
 			"Every middleware serves probes, bursts and evil requests through ONE wrapped handler kept across its reconfigurations; the baseline is recorded through freshly wrapped handlers. The adversary's marks are typed (a well-formed unlisted origin over origins, a method name over methods, a header name over header names) and the suite contains probes mentioning them. Invariant after every step, for every live middleware: answers to its ~200-request suite (fresh requests, benign handler, replayed in a different rotation/direction at every step so that history dependence shows) and Config() equal the baseline recorded right after creation. " +
 			"non-trivial = history containing a scribble or an evil non-preflight request followed by a probe; distinct by history.",
